@@ -201,7 +201,7 @@ func RunMux(c *simkit.Ctx) {
 		<-ready
 	}
 	// the scheduler: release one parked sender at a time, chosen by the tape
-	steps := 0
+	steps, idle := 0, 0
 	holder := map[lib.Topic]*sender{}
 	for {
 		settle(sc)
@@ -236,8 +236,8 @@ func RunMux(c *simkit.Ctx) {
 			sc.mu.Unlock()
 			// everybody is waiting for something else (queue space, the wire): let time pass
 			time.Sleep(10 * time.Millisecond)
-			steps++
-			if steps > 20000 {
+			idle++ // not part of the schedule: how often this happens depends on real goroutine timing
+			if idle > 20000 {
 				c.Harnessf("mux scheduler made no progress")
 			}
 			continue
